@@ -1233,14 +1233,20 @@ BR_SZ = (0.1, 1 / 3, 13.3, 30.0, 0.5, 4.5e-6, 1e5)
 BR_ORG = (0.0, 0.3, 23.5, -1e6 + 0.4, 5e5, 6e6 + 0.3, -0.7, 1e15)
 BR_F = (1e-9, 1e-6, 1e-3, 0.25, 0.5, 0.75, 0.999, 1 - 1e-6, 1 - 1e-9)
 B_ENCS = ("float", "np", "int")
+# integer sizes (every intermediate of the documented floor((x - origin) / sz) is exact, so edges are judged exactly):
+# all sizes 1..128, sizes whose reciprocal is inexact in both directions, and large ones; more bins per size
+BI_SZ = tuple(float(n) for n in range(1, 129)) + (1000.0, 1e5, 3.0 * 2**20 + 1, 7.0e9 + 3)
+BI_ORG = (0.0, 20.0, -7.0, 1000003.0)
+BI_IDX = tuple(range(-5, 6)) + (17, -17, 100, -100, 1001, -1001)
+BI_F = (0.0, 0.5, 1 - BD_E, "edge+ulp", "edge-ulp")
 
 
-def gen_bin(szs, orgs, fs):
+def gen_bin(szs, orgs, fs, idxs=B_IDX):
     def gen():
         for sz in szs:
             for org in orgs:
                 for d in (1, -1):
-                    for idx in B_IDX:
+                    for idx in idxs:
                         for f in fs:
                             yield (sz, org, d, idx, f)
     return gen
@@ -1282,10 +1288,12 @@ def run_bin_d(case):
         if k != idx:
             r.fail(f"Bin1D.bin:inside:{dname}", what + f".bin({x!r}) -> {k}, but x is strictly inside bin {idx} = {(lo, hi)!r}")
     else:
-        # on a shared edge either adjacent bin contains the point (closed intervals)
-        if k not in (idx, idx - d):
-            r.fail(f"Bin1D.bin:edge:{dname}", what + f".bin({x!r}) -> {k}, x is the left edge of bin {idx}")
-        r.outcome += ":own" if k == idx else ":neighbour"
+        # bins are half-open: `origin` is documented as "the left edge of bin 0", every point belongs to exactly one
+        # bin ("the bin whose interval contains it") and GridSpec relies on tiles not overlapping, so the left edge of
+        # bin idx belongs to bin idx. Every intermediate is exact here, so this is not a rounding question.
+        if k != idx:
+            r.fail(f"Bin1D.bin:edge:{dname}", what + f".bin({x!r}) -> {k}, x is exactly the left edge of bin {idx} = {(lo, hi)!r}")
+        r.outcome += ":own"
     b2 = M.Bin1D.from_sample_bin(idx, (lo, hi), d)
     if not (b2 == b) or (b2.sz, b2.origin, b2.direction) != (sz, org, d):
         r.fail(f"Bin1D.from_sample_bin:{dname}", f"from_sample_bin({idx},{(lo, hi)!r},{d}) -> ({b2.sz!r},{b2.origin!r},{b2.direction}) != {what}")
@@ -1499,6 +1507,8 @@ def slices(tier):
                  "scalar helpers and snap_grid: value x {int, int64, float64, float32, Fraction} x tol encoding; call history"),
         e1.Slice("quasi-random", gen_qr, run_qr, "n x offset x shape: determinism, range, offset = tail of the sequence"),
         e1.Slice("bin1d-R", gen_bin(BR_SZ, BR_ORG, BR_F), run_bin_r, "realistic sizes/origins, points strictly inside bins"),
+        e1.Slice("bin1d-int", gen_bin(BI_SZ, BI_ORG, BI_F, BI_IDX), run_bin_d,
+                 "integer sizes 1..128 and large, integer origins, bins up to +-1001: exact edges, midpoints, one ulp either side"),
     ]
 
 
@@ -1521,7 +1531,8 @@ def main(ctx):
                    "input_transforms": [n for n, _ in P2_XFORMS], "array_variants": list(P2_VARIANTS),
                    "triples": "all 76 (thorough) / every 4th (quick)"},
         "axis": {"n": list(AX_N) + [2000], "res": list(AX_RES), "x0": list(AX_X0), "fallback": list(AX_MODES), "label_encodings": list(AX_ENCS)},
-        "bin1d": {"idx": "-5..5", "sz_D": list(BD_SZ), "origin_D": list(BD_ORG), "sz_R": list(BR_SZ), "origin_R": list(BR_ORG)},
+        "bin1d": {"idx": "-5..5", "sz_D": list(BD_SZ), "origin_D": list(BD_ORG), "sz_R": list(BR_SZ), "origin_R": list(BR_ORG),
+                  "sz_int": "1..128, 1000, 1e5, 3*2^20+1, 7e9+3", "origin_int": list(BI_ORG), "idx_int": "-5..5, +-17, +-100, +-1001"},
         "encodings": {"values": list(ENC_V), "x": list(ENC_X), "tol": list(ENC_T)},
     }
     ctx.assumptions = [
@@ -1530,7 +1541,7 @@ def main(ctx):
         "is_affine_st: tolerance relative to the pixel size, |w| <= tol*max(|sx|,|sy|) (repaired behaviour); snap_affine's rotation tolerance is absolute as documented",
         "align_up_pow2/align_down_pow2 are checked for 1 <= x <= 2^32+3 (stated range); align_up_pow2(x<=0) == 1; align_down_pow2 not checked for x <= 0",
         "split_float ties (fraction exactly +-0.5) may go to either neighbour",
-        "Bin1D: a point exactly on (or one ulp from) a shared edge may be assigned to either adjacent bin; on the realistic alphabet points closer than 4 ulps of the coordinate + 1e-9 bin to an edge are not judged",
+        "Bin1D: bins are half-open [left, left+sz): a point exactly on a shared edge (exactly representable alphabets only) belongs to the bin whose left edge it is; a point one ulp from a shared edge may be assigned to either adjacent bin; on the realistic alphabet points closer than 4 ulps of the coordinate + 1e-9 bin to an edge are not judged",
         "R-alphabet slack is ulps of the coordinate + 1e-9 pixel (snap_grid 8 ulp, axis labels 8/16 ulp, Bin1D 4 ulp); Poly2d: 1e-12 of the value + 1e-9 grid step + input rounding (64 ulp of the frame origin) times the gradient of the target",
         "polynomial fits are judged on full product grids (general position for the fitted basis, optionally with repeated control points) and exactly representable targets",
         "Poly2d.grid2d on a chain that is not axis-aligned must raise; answering correctly would also be accepted, answering wrongly is a violation",
